@@ -55,6 +55,7 @@ func checkC20(p *Prog, r *Report) {
 	c20Run(p, r)
 	c20Peers(p, r)
 	c20ConfiguredValuesKept(p, r)
+	c20FirstHandshakeVersion(p, r)
 	// --max-protocol-version is honoured by the per-frame version gate (decided for every version and maximum)
 	{
 		cl := p.proxyClientType()
@@ -816,4 +817,135 @@ func c20ConfiguredValuesKept(p *Prog, r *Report) {
 		})
 	}
 	r.check(len(bad) == 0 && n > 0, rule, "consistency option writers", "", fmt.Sprintf("%d writes, all by the parser or by copying literals", n), strings.Join(dedupe(bad), " || "))
+}
+
+// c20FirstHandshakeVersion: `--protocol-version` is the version the proxy offers a contact point
+// first.  Simulated: the start-up connection attempt of the cluster (connect with initial=true)
+// hands Handshake the configured version on every path, whatever an earlier attempt with another
+// contact point left behind in the cluster object; a reconnect hands it the negotiated version.
+func c20FirstHandshakeVersion(p *Prog, r *Report) {
+	const rule = "C20.first-handshake-version"
+	r.Rule(rule, "the first handshake with every contact point at start-up offers the configured protocol version, not a version left over from an earlier contact point; a reconnect of the control connection offers the version negotiated at start-up")
+	cl := p.Named("proxycore", "Cluster")
+	connect := p.methodOf(cl, "connect")
+	hs := p.methodOf(p.Named("proxycore", "ClientConn"), "Handshake")
+	verF := p.Field("proxycore", "ClusterConfig", "Version")
+	negF := p.Field("proxycore", "Cluster", "NegotiatedVersion")
+	var initPar *ssa.Parameter
+	for _, par := range connect.Params {
+		if b, ok := par.Type().Underlying().(*types.Basic); ok && b.Kind() == types.Bool {
+			if initPar != nil {
+				fatalf("anchor: Cluster.connect has two boolean parameters")
+			}
+			initPar = par
+		}
+	}
+	if initPar == nil {
+		// the start-up flag travels some other way (an options struct): simulate the start-up path
+		// from the constructor instead; decided is that no contact point is offered the version
+		// negotiated with an earlier one (an offer the simulation cannot name is left undecided)
+		ctor := p.FuncOpt("proxycore", "ConnectCluster")
+		if ctor == nil {
+			fatalf("anchor: Cluster.connect has no `initial` parameter and ConnectCluster was not found")
+		}
+		s := newSim(p)
+		s.Inline = func(fn *ssa.Function) bool {
+			return fn != hs && recvNamed(fn) == cl && fn.Parent() == nil && len(fn.Blocks) <= 40
+		}
+		s.LoadVal = func(ld *ssa.UnOp) (AV, bool) {
+			if x, ok := ld.X.(*ssa.FieldAddr); ok {
+				switch fieldOfAddr(x) {
+				case verF:
+					return avSymbol("configured"), true
+				case negF:
+					return avSymbol("negotiated"), true
+				}
+			}
+			return AV{}, false
+		}
+		offered := map[string]token.Pos{}
+		s.OnInstr = func(st *State, in ssa.Instruction) {
+			c, ok := in.(ssa.CallInstruction)
+			if !ok || c.Common().StaticCallee() != hs {
+				return
+			}
+			for i, a := range c.Common().Args {
+				if i > 0 && types.Identical(a.Type(), hs.Params[2].Type()) {
+					offered[s.eval(st, a).String()] = c.Pos()
+					break
+				}
+			}
+		}
+		s.Run(ctor, newState())
+		var keys, bad []string
+		for k := range offered {
+			keys = append(keys, k)
+		}
+		sort.Strings(keys)
+		if pos, isNeg := offered["$negotiated"]; isNeg {
+			bad = append(bad, p.Pos(pos)+": on some start-up path the handshake offers the version negotiated with an earlier contact point instead of the configured one")
+		}
+		if len(offered) == 0 {
+			fatalf("anchor: no Handshake call reached from ConnectCluster")
+		}
+		r.count("sim_states", s.Nodes)
+		r.check(len(bad) == 0, rule, "Cluster start-up (from ConnectCluster)", p.Pos(ctor.Pos()), "offers "+strings.Join(keys, ", ")+" (an offer shown as ? is not decided)", strings.Join(bad, " || "))
+		return
+	}
+	for _, initial := range []bool{true, false} {
+		s := newSim(p)
+		s.Inline = func(fn *ssa.Function) bool {
+			return fn != hs && fn != connect && recvNamed(fn) == cl && fn.Parent() == nil && len(fn.Blocks) <= 12
+		}
+		s.LoadVal = func(ld *ssa.UnOp) (AV, bool) {
+			switch x := ld.X.(type) {
+			case *ssa.FieldAddr:
+				switch fieldOfAddr(x) {
+				case verF:
+					return avSymbol("configured"), true
+				case negF:
+					return avSymbol("negotiated"), true
+				}
+			}
+			return AV{}, false
+		}
+		s.FieldVals = map[*types.Var]AV{verF: avSymbol("configured")}
+		offered := map[string]token.Pos{}
+		s.OnInstr = func(st *State, in ssa.Instruction) {
+			c, ok := in.(ssa.CallInstruction)
+			if !ok || c.Common().StaticCallee() != hs {
+				return
+			}
+			for i, a := range c.Common().Args {
+				if i == 0 || !types.Identical(a.Type(), hs.Params[2].Type()) {
+					continue
+				}
+				offered[s.eval(st, a).String()] = c.Pos()
+				break
+			}
+		}
+		init := newState()
+		init.vals[initPar] = avBool(initial)
+		s.Run(connect, init)
+		want, what := "$configured", "the start-up attempt (initial=true)"
+		if !initial {
+			want, what = "$negotiated", "a reconnect (initial=false)"
+		}
+		var bad []string
+		var keys []string
+		for k := range offered {
+			keys = append(keys, k)
+		}
+		sort.Strings(keys)
+		for _, k := range keys {
+			if k != want {
+				bad = append(bad, fmt.Sprintf("%s: on some path of %s the handshake offers %s instead of %s", p.Pos(offered[k]), what, strings.TrimPrefix(k, "$"), strings.TrimPrefix(want, "$")))
+			}
+		}
+		if len(offered) == 0 {
+			fatalf("anchor: no Handshake call reached in Cluster.connect (initial=%v)", initial)
+		}
+		r.count("sim_states", s.Nodes)
+		r.check(len(bad) == 0, rule, fmt.Sprintf("Cluster.connect initial=%v", initial), p.Pos(connect.Pos()), "offers "+strings.Join(keys, ", "), strings.Join(bad, " || "))
+	}
 }
